@@ -4504,7 +4504,12 @@ int main(int argc, char** argv) {
 
             const auto chunk_id = ephemeralnet::security::derive_chunk_id(
                 std::span<const std::uint8_t>(payload.data(), payload.size()));
-            const auto filename_hint = ephemeralnet::security::sanitize_filename_hint(input_path.string());
+            // The control protocol is line based: the daemon's reader ends a header value at LF and
+            // drops every CR. Send the path exactly as the daemon will see it and derive the filename
+            // hint from that same string, so both sides bind the same name into the proof of work.
+            std::string wire_path = input_path.string();
+            std::erase_if(wire_path, [](char ch) { return ch == '\r' || ch == '\n'; });
+            const auto filename_hint = ephemeralnet::security::sanitize_filename_hint(wire_path);
             const ephemeralnet::security::StoreWorkInput pow_input{
                 chunk_id,
                 static_cast<std::uint64_t>(payload.size()),
@@ -4523,7 +4528,7 @@ int main(int argc, char** argv) {
                 store_pow_nonce = std::uint64_t{0};
             }
 
-            ephemeralnet::daemon::ControlFields fields{{"PATH", input_path.string()}};
+            ephemeralnet::daemon::ControlFields fields{{"PATH", wire_path}};
             if (ttl_override) {
                 fields["TTL"] = std::to_string(*ttl_override);
             }
